@@ -46,9 +46,11 @@ class SgxAdminDevice(SgxDevice):
         return r
 
     def powhsm_message(self, ud):
-        return self.byz.get("signer_header", b"POWHSM:5.4::") + self.byz.get("platform", b"sgx") + \
+        m = self.byz.get("signer_header", b"POWHSM:5.4::") + self.byz.get("platform", b"sgx") + \
             ud + self.byz.get("keys_hash", self.keys_hash()) + self.best_block + self.last_tx + \
             (0).to_bytes(8, "big") + self.byz.get("signer_tail", b"")
+        cut = self.byz.get("signer_cut", 0)
+        return m[:len(m) - cut] if cut else m
 
     def _signer_attestation(self, apdu):
         if len(apdu) < 3:
